@@ -612,6 +612,101 @@ theorem C18.ft_halfcomplex_inverse {K : Type} [Field K] (e : Rat → K) (he : Is
     rw [← this]; congr 1; push_cast; ring
   linear_combination (f k) * this
 
+/-- **Lifting to n-d arrays of any shape** (about `alongAxis`, the executed fibre operator of
+every n-d definition of the driver): if a one-axis map `G` reads only the first `len` entries
+and inverts `F` on them, then applying `G` along an axis after `F` along the same axis returns
+the array, at every flat index, for every `(outer, len, inner)` split (i.e. every shape and
+every axis position), every array content. -/
+theorem C18.along_axis_left_inverse {K : Type} [Inhabited K] (outer len inner : Nat)
+    (F G : (Nat → K) → Nat → K)
+    (hcongr : ∀ f g : Nat → K, (∀ j, j < len → f j = g j) → ∀ k, G f k = G g k)
+    (hGF : ∀ (f : Nat → K) (k : Nat), k < len → G (F f) k = f k)
+    (x : Array K) (idx : Nat) (h : idx < outer * len * inner) :
+    (alongAxis outer len inner len G (alongAxis outer len inner len F x)).getD idx default
+      = x.getD idx default := by
+  have hinner : 0 < inner := by
+    rcases Nat.eq_zero_or_pos inner with h0 | h0
+    · subst h0; simp at h
+    · exact h0
+  have hlen : 0 < len := by
+    rcases Nat.eq_zero_or_pos len with h0 | h0
+    · subst h0; simp at h
+    · exact h0
+  rw [alongAxis_get _ _ _ _ _ _ _ h]
+  set o := idx / inner / len with ho
+  set k := idx / inner % len with hk
+  set i := idx % inner with hi
+  have hkl : k < len := Nat.mod_lt _ hlen
+  have hil : i < inner := Nat.mod_lt _ hinner
+  have hidx : idx = (o * len + k) * inner + i := by
+    have h1 : idx = idx / inner * inner + idx % inner := (Nat.div_add_mod' idx inner).symm
+    have h2 : idx / inner = idx / inner / len * len + idx / inner % len := (Nat.div_add_mod' _ len).symm
+    rw [ho, hk, hi, ← h2, ← h1]
+  have ho_lt : o < outer := by
+    rw [ho, Nat.div_div_eq_div_mul, Nat.div_lt_iff_lt_mul (Nat.mul_pos hinner hlen)]
+    calc idx < outer * len * inner := h
+      _ = outer * (inner * len) := by ring
+  -- the fibre read by G is F of the fibre of x
+  have hfib : ∀ j, j < len →
+      (alongAxis outer len inner len F x).getD ((o * len + j) * inner + i) default
+        = F (fun k' => x.getD ((o * len + k') * inner + i) default) j := by
+    intro j hj
+    have hb : (o * len + j) * inner + i < outer * len * inner := by
+      have : o * len + j < outer * len := by nlinarith
+      nlinarith
+    rw [alongAxis_get _ _ _ _ _ _ _ hb]
+    obtain ⟨a, b, c⟩ := fibre_index len inner o j i hj hil
+    rw [a, b, c]
+  rw [hcongr _ (F (fun k' => x.getD ((o * len + k') * inner + i) default)) hfib k,
+    hGF _ k hkl, ← hidx]
+
+/-- The plain DFT along ONE axis of an n-d array of any shape, followed by the inverse the code
+pairs with it (flipped sign, coded normalisation) along the same axis, is the identity — the
+executed `alongAxis` of the executed one-axis maps `dftForwardNp` / `dftInverseNp`. -/
+theorem C18.dft_inverse_along_axis {K : Type} [Field K] [Inhabited K] (outer n inner : Nat)
+    (w : K) (hnK : (n : K) ≠ 0) (hw : IsPrimRoot w n) (plus : Bool)
+    (x : Array K) (idx : Nat) (h : idx < outer * n * inner) :
+    (alongAxis outer n inner n (dftInverseNp (!plus) w w⁻¹ n)
+        (alongAxis outer n inner n (dftForwardNp plus w w⁻¹ n) x)).getD idx default
+      = x.getD idx default := by
+  have hn : 0 < n := by
+    rcases Nat.eq_zero_or_pos n with h0 | h0
+    · subst h0; simp at h
+    · exact h0
+  exact C18.along_axis_left_inverse outer n inner _ _
+    (fun f g hfg k => dftInverseNp_congr (!plus) w w⁻¹ n f g hfg k)
+    (fun f k hk => C18.dft_inverse w n hn hnK hw plus f k hk) x idx h
+
+/-- The continuous-FT approximation along ONE axis of an n-d array of any shape recovers its
+input through its inverse along that axis (`ftForwardAxis` / `ftInverseAxis` under `alongAxis`,
+the steps of the executed `ftForwardSepNd` / `ftInverseSepNd`), for every shift, sign, kernel
+factors and phase function. -/
+theorem C18.ft_inverse_along_axis {K : Type} [Field K] [Inhabited K] (outer n inner : Nat)
+    (e : Rat → K) (he : IsPhase e) (w : K) (hnK : (n : K) ≠ 0) (hw : IsPrimRoot w n)
+    (amp : Nat → K) (hamp : ∀ j, j < n → amp j ≠ 0) (c : Nat → Rat) (t : Rat)
+    (shift plus : Bool) (x : Array K) (idx : Nat) (h : idx < outer * n * inner) :
+    (alongAxis outer n inner n (ftInverseAxis e amp c t shift (!plus) w w⁻¹ n)
+        (alongAxis outer n inner n (ftForwardAxis e amp c t shift plus w w⁻¹ n) x)).getD idx default
+      = x.getD idx default := by
+  have hn : 0 < n := by
+    rcases Nat.eq_zero_or_pos n with h0 | h0
+    · subst h0; simp at h
+    · exact h0
+  refine C18.along_axis_left_inverse outer n inner _ _ ?_
+    (fun f k hk => C18.ft_inverse e he w n hn hnK hw amp hamp c t shift plus f k hk) x idx h
+  intro f g hfg k
+  unfold ftInverseAxis
+  rw [dftInverseNp_congr (!plus) w w⁻¹ n _ _ (fun j hj => by rw [hfg j hj]) k]
+
+/-- Non-vacuity: 2-point transforms with `w = -1` along the middle axis of a 2×2×3 array. -/
+example (x : Array ℚ) (idx : Nat) (h : idx < 2 * 2 * 3) :
+    (alongAxis 2 2 3 2 (dftInverseNp true (-1 : ℚ) (-1)⁻¹ 2)
+        (alongAxis 2 2 3 2 (dftForwardNp false (-1 : ℚ) (-1)⁻¹ 2) x)).getD idx default
+      = x.getD idx default :=
+  C18.dft_inverse_along_axis 2 2 3 (-1 : ℚ) (by norm_num)
+    ⟨by norm_num, by intro d hd hd2; have : d = 1 := by omega
+                     subst this; norm_num⟩ false x idx h
+
 /-- Non-vacuity of `IsPhase`: `q ↦ exp(iπ q)` over `ℂ` is a phase function, and it is not
 trivial (`e 1 = -1`). -/
 example : IsPhase (fun q : Rat => Complex.exp (Real.pi * Complex.I * (q : ℂ))) ∧
